@@ -156,3 +156,68 @@ Proof.
     destruct (close_if_proj s1) as (C1 & C2 & C3 & C4 & C5 & C6 & C7 & C8 & C9 & C10);
     destruct Hs3 as [->|[m ->]]; destruct Ed as [->| ->]; cbn [set_meta set_quirk ps_start ps_end ps_gecko ps_frames]; congruence.
 Qed.
+
+(* ---- C02: the whole chain .slp -> game -> .slpp -> game -> .slp on a well-formed replay ---- *)
+From Peppi Require Import Model.Slpp Proofs.SlppProof.
+
+Lemma gecko_actual_small r st c :
+  wf_replay r = true -> game_start (r_start r) = ROk st -> r_gecko r = Some c -> (gk_actual c < 4294967296)%N.
+Proof.
+  intros Hwf Hst Hg. destruct (wf_replay_inv r st Hwf Hst) as (_ & _ & _ & _ & _ & _ & _ & Hb).
+  destruct (gecko_inv r st Hwf Hst c Hg) as (Hl & Hk & Hw).
+  pose proof (raw_len r st Hwf Hst) as Hr. unfold gecko_len in Hr. rewrite Hg in Hr.
+  unfold nn in Hb. lia.
+Qed.
+
+Lemma game_of_coherent r st h :
+  wf_replay r = true -> game_start (r_start r) = ROk st ->
+  coherent (game_of {| o_skip := false; o_hash := h |} r st (end_of r)).
+Proof.
+  intros Hwf Hst. unfold coherent, game_of. cbn [g_start g_end g_gecko o_skip]. repeat split.
+  - destruct (game_start_fields _ _ Hst) as (Hb & _). rewrite Hb. exact Hst.
+  - intros e He. unfold end_of in He. destruct (end_blk r) as [b|]; [|discriminate].
+    destruct (game_end b) as [e'| |] eqn:Hg; try discriminate. injection He as <-.
+    rewrite (game_end_bytes _ _ Hg). exact Hg.
+  - intros k Hk. exact (gecko_actual_small r st k Hwf Hst Hk).
+Qed.
+
+Lemma c02_full_chain
+  enc_peppi dec_peppi enc_meta dec_meta enc_start enc_end enc_frames dec_frames :
+  (forall v h q, dec_peppi (enc_peppi v h q) = Some (v, h, q)) ->
+  (forall m, dec_meta (enc_meta m) = Some m) ->
+  (forall c v ports fr b, enc_frames c v ports fr = Ok b -> dec_frames v b = Ok fr) ->
+  forall r st h c hash es,
+    wf_replay r = true -> game_start (r_start r) = ROk st ->
+    let g := game_of {| o_skip := false; o_hash := h |} r st (end_of r) in
+    slpp_write enc_peppi enc_meta enc_start enc_end enc_frames c {| sg_game := g; sg_hash := hash |} = Ok es ->
+    slp_read {| o_skip := false; o_hash := h |} (emit r) = Ok (g, []) /\
+    exists g2, slpp_read dec_peppi dec_meta dec_frames false es = Ok {| sg_game := g2; sg_hash := hash |} /\
+               slp_write g2 = Ok (emit r).
+Proof.
+  intros H1 H2 H3 r st h c hash es Hwf Hst g Hw.
+  split; [apply read_full; assumption|].
+  exists (strip_hash g). split.
+  - apply (slpp_roundtrip enc_peppi dec_peppi enc_meta dec_meta enc_start enc_end enc_frames dec_frames H1 H2 H3 c
+             {| sg_game := g; sg_hash := hash |} es).
+    + apply game_of_coherent; assumption.
+    + exact Hw.
+  - change (slp_write (strip_hash g)) with (slp_write g). apply c01_write; assumption.
+Qed.
+
+(* ---- C11 end to end: any fragmentation of a well-formed file, full read: the hasher is fed the file, exactly ---- *)
+From Peppi Require Import Model.Frag Proofs.FragProof.
+
+Lemma read_full_frag r st sched :
+  wf_replay r = true -> game_start (r_start r) = ROk st -> no_fault sched ->
+  let data := emit r in
+  let '(res, h') := run_frag (p_slp_read true (length data)) (mk_hreader data sched (Some [])) in
+  res = Ok (game_of {| o_skip := false; o_hash := true |} r st (end_of r)) /\
+  fs_data (hr_inner h') = [] /\ hr_hashed h' = Some data.
+Proof.
+  intros Hwf Hst Hnf data.
+  pose proof (read_full r st Hwf Hst true) as Hflat. fold data in Hflat.
+  pose proof (slp_read_frag_digest data sched _ _ Hnf Hflat) as H.
+  destruct (run_frag (p_slp_read true (length data)) (mk_hreader data sched (Some []))) as [res h'].
+  destruct H as (Hres & Hrest & used & Hu & Hh & _). rewrite app_nil_r in Hu. subst used.
+  repeat split; assumption.
+Qed.
